@@ -7,6 +7,7 @@ RTAGS = {'RD_VolumeProportional': {'C08'}, 'RD_AcceptRule': {'C08'}, 'RD_Multipl
          'RD_Counters': {'C08'}, 'RD_LogV': {'C08'}, 'NB_Filter': {'C08'}, 'NB_Counters': {'C08'}, 'NB_LogV': {'C08'},
          'MG_Own': {'C08'}, 'MG_Outer': {'C08'}, 'MG_Cache': {'C08'}, 'EV_ClosedForm': {'C08'},
          'EV_MatrixOfContains': {'C08'},
+         'RD_AllocationRandom': {'C08'}, 'RD_AllocationTotal': set(),
          'RD_CacheOrder': set(), 'RD_MemberCounts': set(), 'RD_ProposalCount': set(), 'NoSuchRecord': set()}
 
 
@@ -90,6 +91,9 @@ def check_c08(prop, tier, seed):
         rep.coverage.update(rounds=kinds, proposals_checked=sum(len(r.get('m', [])) for r in log),
                             proposals_in_three_or_more_members=sum(sum(1 for x in r.get('m', []) if x >= 3) for r in log),
                             overlapping_proposals=sum(r.get('n_overlap', 0) for r in log))
+        rep.coverage['allocation_records_with_a_member_of_variance_ge_25'] = sum(
+            1 for r in log if r['kind'] == 'alloc' and len(r['counts']) >= 8
+            and any(v * (1000 - v) >= 25000 for v in r['vrelm']))
         r0 = [r for r in log if r['kind'] == 'union' and r.get('n_overlap', 0) > 0][:1] or log[:1]
         rep.sample({k: (v if not isinstance(v, list) else v[:10]) for k, v in r0[0].items()})
         rep.notes.append('NOT decided by this check: uniformity of Ellipsoid.sample inside one ellipsoid and agreement of '
